@@ -534,6 +534,11 @@ func runC18(t *testing.T, rep *mc.Reporter) {
 		rep.Machinery("cannot load replay: "+err.Error(), nil)
 		return
 	} else if rp != nil {
+		var cs c11sScenario
+		if json.Unmarshal(rp.Scenario, &cs) == nil && cs.Family == "chose" {
+			rep.Exec(cs, nil, c11sExec(cs))
+			return
+		}
 		var scn c18Scenario
 		if err := json.Unmarshal(rp.Scenario, &scn); err != nil {
 			rep.Machinery("bad replay scenario: "+err.Error(), nil)
@@ -616,6 +621,10 @@ func runC18(t *testing.T, rep *mc.Reporter) {
 				}
 			}
 		}
+	}
+	// ---- family "chose" (part of C11 only): the checkpoint-key search over a reused buffer (c11s_test.go)
+	if fam == "snap" || fam == "chose" {
+		c11sFamily(rep, tier, shard, nshards, budget, &idx)
 	}
 	// ---- snapshot lane: entries of a snapshot are replay units too; with replay.replaceHashTag the
 	// key that is written differs from the key in the snapshot
